@@ -115,7 +115,11 @@ func (p *PPM) Value() int64 {
 
 // Compute calculates the premium in satoshis for a given amount in satoshis.
 func (p *PPM) Compute(amtSat uint64) (sat int64) {
-	return int64(amtSat) * p.ppmValue / premiumRateParts
+	// Split the amount so that the intermediate product cannot overflow int64
+	// for rates within +/-100% (|ppm| <= premiumRateParts).
+	whole := int64(amtSat / premiumRateParts)
+	frac := int64(amtSat % premiumRateParts)
+	return whole*p.ppmValue + frac*p.ppmValue/premiumRateParts
 }
 
 // Premium rate operations
